@@ -542,9 +542,10 @@ def generator_family(run, replay):
     for r in (True, False):
         for d in (-1, 0, 1, 2, 3, 4, 5):
             extra.append(dict(gen="balanced", n=d, rooted=r))
-        for k in range(0, 8 if run.tier == "quick" else 9):
-            if not (r and k >= 7 and run.tier == "quick"):
-                extra.append(dict(gen="topologies", n=k, rooted=r))
+        # (2n-5)!! unrooted / (2n-3)!! rooted trees in one recorded event: 945 at most in the quick tier, 10395 in the thorough one
+        top = (7 if run.tier == "quick" else 8) - (1 if r else 0)
+        for k in range(0, top + 1):
+            extra.append(dict(gen="topologies", n=k, rooted=r))
     for k in (-1, 0, 1, 2, 3, 4, 9, 40):
         extra.append(dict(gen="star", n=k, rooted=False))
     with open(cases_path, "a") as f:
